@@ -76,4 +76,58 @@ PLANS = {
         "assumptions": COMMON_ASSUME + ["flags restricted to bits 0-11 and 52-63 as the property states (bit 12 overlaps the address field)"],
         "quick": BOTH_Q, "thorough": BOTH_T,
     },
+
+    "C01": {
+        "level": "exploration",
+        "rule": "random call histories (20-200 calls) of map_to / map_to_with_table_flags / identity_map / unmap / update_flags / "
+                "set_flags_p{4,3,2}_entry / translate_page / clean_up / clean_up_addr_range over the three page sizes, pages drawn "
+                "from small collision universes of p4/p3/p2/p1 indices (nested regions, neighbours, both halves, first/last page), "
+                "frames incl. 0, the last frame, decoy data frames and the root frame, hostile allocators, on MappedPageTable "
+                "(arbitrary shuffled frame mapping) and OffsetPageTable (sampled offsets) over simulated physical memory. After EVERY "
+                "call the raw table memory is dumped by an independent hardware-style walker and compared slot by slot with the "
+                "reference model (tree equality decides all 2^48 addresses), and translate/translate_addr/translate_page are compared "
+                "with the walker on a probe set. distinct_nontrivial counts distinct (build, implementation, operation<size>, state "
+                "class the call was made in, outcome) tuples.",
+        "assumptions": COMMON_ASSUME + ["leaf flags contain PRESENT, parent flags contain PRESENT and not HUGE_PAGE (as the property states); PAT_HUGE_PAGE (bit 12) is not used in leaf flags",
+                                         "OffsetPageTable offsets and frame mappings are those a user process can realise (lower-half, 4 KiB aligned)",
+                                         "RecursivePageTable is driven by the software-MMU engine (see C20 / DESIGN.md §3 E5)"],
+        "quick": BOTH_Q, "thorough": BOTH_T,
+    },
+    "C02": {
+        "level": "fault_enumeration",
+        "rule": "same histories as C01; the model classifies the state each call is made in (Unmapped, MappedSame, InsideLarger, "
+                "CoversSmaller) and gives the documented outcome; after every Err the post-call dump must equal the pre-call tree "
+                "except for tables created before the failure point (linked, all-zero) and requested parent flags. Fault "
+                "enumeration: at EVERY map call of every history that needs k>=1 new tables the whole state (memory, model, "
+                "allocator) is forked k times and the call re-run with the allocator failing request 1..k; the result must be "
+                "FrameAllocationFailed, no request may follow the failed one, and no mapping may change. distinct_nontrivial counts "
+                "distinct (build, implementation, operation<size>, state class, outcome) and (operation, failing request j of k) tuples.",
+        "assumptions": COMMON_ASSUME + ["states the documentation does not define (a huge-size call on a slot that holds a page table) accept any Err without change and reject Ok"],
+        "quick": BOTH_Q, "thorough": BOTH_T,
+    },
+    "C09": {
+        "level": "exploration",
+        "rule": "every step of the C01/C02 histories over physical memory pre-filled with non-zero garbage (half of the garbage words "
+                "look PRESENT): byte-wise before/after diff of ALL frames (tables, decoy data frames that are targets of live "
+                "mappings, free and freed re-poisoned frames) - only frames that are tables of the hierarchy may change; new tables "
+                "must be all-zero apart from the expected entry (dump vs model); allocator log: requests == missing tables, none by "
+                "non-map operations, deallocation only by clean-up, every obtained frame linked; frame_to_pointer only for live "
+                "tables. Sanitizer passes (Miri / ASan / valgrind, see runs) repeat the histories with every frame a separate "
+                "allocation. distinct_nontrivial as C01.",
+        "assumptions": COMMON_ASSUME + ["a stray access that stays inside another live table frame is caught by the model comparison, one that leaves the frame by the sanitizer / guard pages"],
+        "quick": BOTH_Q, "thorough": BOTH_T,
+    },
+    "C10": {
+        "level": "exploration",
+        "rule": "hierarchies reached by C01 histories (incl. empty tables left by unmap and by failed maps) x clean_up and "
+                "clean_up_addr_range with ranges: empty (start > end), single page, table-aligned, unaligned, several tables of each "
+                "level, across the gap, ending at the last page, whole space. Clauses checked one by one on the deallocator log and "
+                "the raw dumps before/after: freed frame is a level 1-3 table that overlaps the range, held only links to tables "
+                "freed by the same call, is unlinked afterwards, freed once, never the root; no empty table wholly inside the range "
+                "left; leaves identical; tables outside the range bit-identical; a second identical clean-up frees nothing. "
+                "distinct_nontrivial counts distinct (build, implementation, operation, number freed class, range class) tuples plus the C01 classes.",
+        "assumptions": COMMON_ASSUME + ["'unlinked and empty at that moment' is checked after the call from the deallocation order and the pre/post dumps (the in-callback walk is used in the native debug build only)"],
+        "quick": [{"flavor": "debug", "shards": 4, "extra": {"focus": "c10"}}, {"flavor": "release", "shards": 4}],
+        "thorough": BOTH_T,
+    },
 }
